@@ -309,6 +309,8 @@ def witness_sample(out):
 
 def run_jobs(jobs, logdir, total_mem_gb=52, max_workers=14):
     """Runs jobs in parallel under a simple memory budget (sum of mem caps)."""
+    total_mem_gb = float(os.environ.get("VERIF_TOTAL_MEM_GB", total_mem_gb))
+    max_workers = int(os.environ.get("VERIF_WORKERS", max_workers))
     for c in sorted({j.crate for j in jobs}):
         prepare_crate(c)
     results = [None] * len(jobs)
